@@ -677,3 +677,71 @@ def rule_nested_array_element_continues(ctx, rep, rid: str) -> None:
             rep.ok(rid, "_parse_nested_arrays:inner-array:no-comma-operator")
     if n == 0:
         raise AnalysisError(f"{rid}: no place where an inner array becomes an element of the enclosing one was found")
+
+
+def rule_decimal_point_needs_no_digits(ctx, rep, rid: str) -> None:
+    """DecimalLiteral :: DecimalIntegerLiteral . DecimalDigits(opt) ExponentPart(opt): `1.`, `1.e3` and `5..toString()` are
+    numbers followed by whatever comes next.  A scanner that takes the point only when a digit follows reads `1.e3` as
+    a property of 1.  And the character after a numeric literal is never an identifier character or a digit."""
+    rep.rule(rid, "the number scanner admits the decimal point after the integer digits without looking at the character behind it, and refuses an identifier character directly after a numeric literal", floor=2)
+    lx = ctx.tree.class_named("Lexer")
+    cands = [m for m in lx.methods.values() if not isinstance(m.node, ast.Lambda) and any(isinstance(c, ast.Compare) and norm(c).replace("'", '"') == 'self._current() == "."' for c in m.own_nodes()) and any(isinstance(c, ast.Call) and norm(c.func) == "float" for c in m.own_nodes())]
+    if not cands:
+        raise AnalysisError(f"{rid}: the number scanner of the lexer was not found")
+    for m in cands:
+        for t in m.own_nodes():
+            if isinstance(t, ast.If) and any(isinstance(c, ast.Compare) and norm(c).replace("'", '"') == 'self._current() == "."' for c in ast.walk(t.test)):
+                key = f"{m.qual}:decimal-point"
+                looks = [c for c in ast.walk(t.test) if isinstance(c, ast.Call) and isinstance(c.func, ast.Attribute) and c.func.attr in ("_peek", "_peek_char", "_lookahead")]
+                if looks:
+                    rep.bad(rid, key, f"{m.qual} takes the decimal point only when `{short(t.test, 60)}`: `1.`, `1.e3` and `5..toString()` are then an integer followed by a member access (1.e3 evaluates to undefined)", f"{m.module.rel}:{t.lineno}")
+                else:
+                    rep.ok(rid, key)
+        # the end-of-literal check: here or in a helper called from here
+        bodies = [m] + [h for c in m.own_nodes() if isinstance(c, ast.Call) and isinstance(c.func, ast.Attribute) and norm(c.func.value) == "self" for h in [ctx.tree.find_method(lx, c.func.attr)] if h is not None]
+        ends = any(isinstance(r, ast.Raise) and r.exc is not None and "SyntaxError" in norm(r.exc) and any(isinstance(p, ast.If) and any(w in norm(p.test) for w in ("isalnum", "isalpha", "isidentifier", "_is_id")) for p in _parents_of(r)) for b in bodies for r in b.own_nodes())
+        key = f"{m.qual}:identifier-after-number"
+        if ends:
+            rep.ok(rid, key)
+        else:
+            rep.bad(rid, key, f"{m.qual} ends a numeric literal without looking at the next character: `3in x`, `1.toString()` and `0x1g` are accepted although the grammar forbids an identifier directly after a number", m.loc)
+
+
+def _parents_of(n):
+    p = getattr(n, "_parent", None)
+    while p is not None:
+        yield p
+        p = getattr(p, "_parent", None)
+
+
+def rule_new_callee_is_member_expression(ctx, rep, rid: str) -> None:
+    """`new MemberExpression Arguments`: in `new a.b.c(x)` the callee is a.b.c and (x) are the constructor's arguments.
+    A parser that takes a primary expression as the callee constructs `a` and then reads `.b.c(x)` off the instance."""
+    rep.rule(rid, "after `new` the parser continues the callee over property accesses (.name and [expr]) - and not over calls - before it reads the argument list", floor=1)
+    ps = ctx.tree.class_named("Parser")
+    fs = [m for m in ps.methods.values() if not isinstance(m.node, ast.Lambda) and any(isinstance(c, ast.Call) and norm(c.func) == "self._match" and c.args and norm(c.args[0]) == "TokenType.NEW" for c in m.own_nodes())]
+    if not fs:
+        raise AnalysisError(f"{rid}: no parser method matches TokenType.NEW")
+    for m in fs:
+        key = f"{m.qual}:callee"
+        cal = [a for a in m.own_nodes() if isinstance(a, ast.Assign) and len(a.targets) == 1 and norm(a.targets[0]) == "callee"]
+        if not cal:
+            raise AnalysisError(f"{rid}: {m.qual} has no `callee = ...`")
+        good = False
+        why = "only a primary expression (or another `new`) is parsed as the callee"
+        for a in cal:
+            for c in ast.walk(a.value):
+                if isinstance(c, ast.Call) and isinstance(c.func, ast.Attribute) and norm(c.func.value) == "self" and c.func.attr != m.name:
+                    h = ctx.tree.find_method(ps, c.func.attr)
+                    if h is None:
+                        continue
+                    txt = " ".join(_body_texts(h))
+                    if "TokenType.DOT" in txt and "TokenType.LBRACKET" in txt:
+                        if "CallExpression" in txt and len(c.args) + len(c.keywords) < 2:
+                            why = f"the callee is continued by {h.name}, which also applies calls: `new a.b()` would construct the result of a.b()"
+                        else:
+                            good = True
+        if good:
+            rep.ok(rid, key)
+        else:
+            rep.bad(rid, key, f"{m.qual}: {why}; `new a.b(x)` is parsed as `(new a).b(x)` and fails with 'not a constructor'", m.loc)
